@@ -559,9 +559,38 @@ def reply_scenarios(protos=('v2', 'loose', 'v1', 'auto')):
     return out
 
 
+def semaphore_scenarios(protos=('v2',)):
+    """The third place where a sender can wait: more than 50 outgoing calls at once queue at the
+    session's outgoing-concurrency semaphore (after their ids were drawn, before their message is
+    written).  53 requests; one of the three that queue is cancelled / times out there; answers
+    free slots so that the others get written; then later requests; everything is answered.
+    (The Lean session model does not have the semaphore: for these scenarios only the
+    connection-level history is compared with the model.)"""
+    out = []
+    for proto in protos:
+        for victim in (50, 51, 52):
+            for giveup in ('cancel', 'timeout'):
+                calls = [['req'] for _ in range(53)]
+                if giveup == 'timeout':
+                    calls[victim] = ['req', 5]
+                script = [['call', i] for i in range(53)]
+                script += [['cancel', victim]] if giveup == 'cancel' else [['advance', 6]]
+                script += [['answer', 0, 'ok'], ['answer', 1, 'ok'], ['answer', 2, 'ok']]
+                calls += [['req'], ['req'] if proto == 'v1' else ['batch', 'rr', 0]]
+                script += [['call', 53], ['call', 54]]
+                rest = [i for i in range(55) if i > 2]
+                if victim % 2:
+                    rest.reverse()
+                script += [['answer', i, 'ok'] for i in rest] + [['dup', 52], ['dup', victim]]
+                out.append({'layer': 'session', 'proto': proto, 'calls': calls, 'script': script,
+                            'seed': victim, 'srt': 1000})
+    return out
+
+
 def scenarios(rng, n, tier='quick'):
     out = basic_scenarios(rng, n)
     out += reply_scenarios()
+    out += semaphore_scenarios(('v2',) if tier == 'quick' else ('v2', 'loose', 'v1', 'auto'))
     if tier == 'quick':
         out += backpressure_scenarios(('v2', 'loose', 'v1', 'auto'), laters=(0, 2, 3))
     else:
@@ -600,7 +629,7 @@ def _evaluate(ctx, scs, res):
                     obs_list += vloop.run(go([sc]))
                 except (vloop.Deadlock, vloop.Livelock) as e2:
                     obs_list.append({'hang': type(e2).__name__})
-    lines, idx = [], []
+    lines, idx, has_w = [], [], {}
     for k, (sc, obs) in enumerate(zip(scs, obs_list)):
         if 'hang' in obs:
             res.violation('c01:session-hang', sc, obs['hang'])
@@ -614,10 +643,14 @@ def _evaluate(ctx, scs, res):
             if isinstance(obs['start'], str):
                 raise OutsideModel(obs['start'])
             a = abstract({'proto': sc['proto'], 'ops': obs['conn_ops']}, start=obs['start'])
-            b = abstract({'proto': sc['proto'], 'ops': obs['sess_ops']}, variant='W',
-                         start=obs['start'] or 0)
-            lines += [a, b]
+            if len(sc['calls']) <= 40:
+                b = abstract({'proto': sc['proto'], 'ops': obs['sess_ops']}, variant='W',
+                             start=obs['start'] or 0)
+            else:
+                b = None      # callers queue at the concurrency semaphore: outside Sess.lean
+            lines += [a, b or a]
             idx.append(k)
+            has_w[k] = b is not None
         except OutsideModel as e:
             res.disagreement(sc, obs['futs'], f'ids outside the model: {e}')
         except ValueError:
@@ -637,7 +670,7 @@ def _evaluate(ctx, scs, res):
             # session level: table, futures and the ids on the wire in wire order
             have_w = f'#{obs["pending"]} ' + (','.join(obs['futs']) if obs['futs'] else '.') \
                 + ' ' + obs['wire']
-            if model[2 * n + 1] != have_w and not res.n_violations:
+            if has_w[k] and model[2 * n + 1] != have_w and not res.n_violations:
                 res.disagreement(sc, have_w, model[2 * n + 1], model_line=lines[2 * n + 1])
             toks = out.split(' ')
             futs = [] if toks[-1] == '.' else toks[-1].split(',')
